@@ -1211,12 +1211,12 @@ end C17
 namespace C17
 open Codec.Cd
 
-/-- **`CertificationElements::decode` never panics**, whatever the content (every Rust slice: length + 1 < 2^64);
-built on the never-panic theorems of the TLV reader (C16) -/
-theorem cd_decode_total (content : Tlv.Bytes) (h : content.length + 1 < Tlv.USIZE) : CSafe (decode content) :=
+/-- **`CertificationElements::decode` never panics**, whatever the content below 2 GiB (`length < 2^31`: the TLV
+container walk counts nesting in an `i32`, C16 `levelStep`); built on the never-panic theorems of the TLV reader (C16) -/
+theorem cd_decode_total (content : Tlv.Bytes) (h : content.length < Tlv.I32LIM) : CSafe (decode content) :=
   decode_safe content h
 
-example : ([0x15, 0x18] : Tlv.Bytes).length + 1 < Tlv.USIZE := by decide
+example : ([0x15, 0x18] : Tlv.Bytes).length < Tlv.I32LIM := by decide
 
 /-- **CD content round trip**: the TLV structure the model encoder writes (Matter layout: format version, vendor id,
 product id array, device type, certificate id, security level / information, version number, certification type, the
